@@ -681,7 +681,11 @@ class Interp:
         ordinal = frame.info.loops.get(id(node))
         if ordinal is None:
             return None
-        c = self.reg.get(frame.info.qualname)
+        c = None
+        if self.contract is not None and self.depth == 1 and getattr(self.contract, "target", None) == frame.info.qualname:
+            c = self.contract
+        if c is None:
+            c = self.reg.get(frame.info.qualname)
         if c is None:
             return None
         return c.loops.get(ordinal)
@@ -788,7 +792,18 @@ class Interp:
                 continue
             if nm not in frame.locals:
                 continue  # first bound inside the loop
-            frame.locals[nm] = self.havoc_like(frame.locals[nm], nm)
+            rebound = nm in _rebound_names(s.body + (s.orelse or [])) or (isinstance(s, ast.For) and nm in _rebound_names([ast.Assign(targets=[s.target], value=ast.Constant(0))]))
+            if frame.locals[nm] is None and not rebound:
+                continue  # None cannot be mutated in place, and the name is never re-bound
+            cur = frame.locals[nm]
+            new = self.havoc_like(cur, nm)
+            if not rebound and _is_mutable_box(cur) and type(new) is type(cur):
+                # the object is only mutated in place: havoc the box itself so that every alias
+                # (the contract's own parameter binding included) sees the loop state
+                for slot in type(cur).__slots__:
+                    setattr(cur, slot, getattr(new, slot))
+            else:
+                frame.locals[nm] = new
         for base, attr in sorted(attrs):
             obj = frame.locals.get(base)
             if isinstance(obj, SObj) and attr in obj.fields:
@@ -1128,6 +1143,20 @@ class Interp:
     # ------------------------------------------------------------------ calls
     def call(self, fv, args, kwargs, lineno=None):
         return self.models.call(self, fv, args, kwargs, lineno)
+
+
+def _is_mutable_box(v):
+    return isinstance(v, (SBytesIO, SMap)) or (isinstance(v, SSeq) and v.kind == "list") or (isinstance(v, SBytes) and v.kind == "bytearray")
+
+
+def _rebound_names(stmts):
+    """names that are assigned (not merely mutated through a subscript/method) in stmts"""
+    out = set()
+    for st in stmts:
+        for n in ast.walk(st):
+            if isinstance(n, ast.Name) and isinstance(n.ctx, (ast.Store, ast.Del)):
+                out.add(n.id)
+    return out
 
 
 def _desugar_quantifiers(node):
